@@ -10,7 +10,7 @@ git -C /repo worktree remove --force $WT 2>/dev/null
 git -C /repo worktree add -q --detach $WT HEAD || exit 2
 run_demo() {
   if [ -d "$DEMO" ]; then (cd $WT && mkdir -p zz_demo && cp -r "$DEMO"/* zz_demo/ && go run ./zz_demo >/dev/null 2>&1); rc=$?; rm -rf $WT/zz_demo; return $rc
-  else mkdir -p $WT/$DEMODIR; cp "$DEMO" $WT/$DEMODIR/zz_demo_test.go; (cd $WT/$DEMODIR && go test -vet=off -count=1 -run 'Demo|Mut|Seed' . >/dev/null 2>&1); rc=$?; rm -f $WT/$DEMODIR/zz_demo_test.go; return $rc; fi
+  else mkdir -p $WT/$DEMODIR; cp "$DEMO" $WT/$DEMODIR/zz_demo_test.go; (cd $WT/$DEMODIR && go test -vet=off -count=1 -run "^($(grep -o 'func Test[A-Za-z0-9_]*' zz_demo_test.go | sed 's/func //' | paste -sd'|'))\$" . >/dev/null 2>&1); rc=$?; rm -f $WT/$DEMODIR/zz_demo_test.go; return $rc; fi
 }
 run_demo; echo "demo without patch: rc=$? (expect 0)"
 (cd $WT && git apply "$PATCH") || { echo "patch does not apply"; git -C /repo worktree remove --force $WT; exit 2; }
